@@ -33,7 +33,7 @@ ASSUMPTIONS = [
     "integer / // % are never generated on int x int; sums over groups without a non-null value are kept out",
 ]
 
-SURROGATE_ONLY = ("ON clause references tables to its right", "clause should come after UNION", "parser stack overflow")
+SURROGATE_ONLY = ("ON clause references tables to its right", "parser stack overflow")
 N = {"quick": 1400, "thorough": 60000}
 NB = {"quick": 16, "thorough": 64}
 
